@@ -97,6 +97,13 @@ def build(template_path, out_path, canary=False, repo=None, mutate=None):
                 side.extend(x.strip() for x in s[len("//@ side_obligations "):].split(",") if x.strip())
                 i += 1
                 continue
+            if s.startswith("//@ require_text "):
+                m = re.match(r"//@ require_text (\S+) :: (.*)$", s)
+                lit = m.group(2).replace("\\n", "\n")
+                if "".join(lit.split()) not in "".join(source(m.group(1)).src.split()):
+                    raise LostAnchor(f"require_text: {m.group(1)} no longer contains {lit[:60]!r}")
+                i += 1
+                continue
             if s.startswith("//@ n13_def "):
                 # the definition that rule N13 inlines: cut from the repository on this run
                 m = re.match(r"//@ n13_def (\S+) :: (.*)$", s)
@@ -227,12 +234,19 @@ def build(template_path, out_path, canary=False, repo=None, mutate=None):
     def emit_cut(cut):
         sf = source(cut.path)
         mclo = re.match(r"closure (\d+) as (\w+) in (.*)$", cut.selector)
+        marm = re.match(r"arm (.*?) as (\w+)(\(.*\)(?:\s*->\s*.*?)?) in (fn .*|method .*)$", cut.selector)
         if mclo:
             it = sf.find(mclo.group(3))
             raw, cs, ce = sf.closure_as_fn(it, int(mclo.group(1)), mclo.group(2))
             from .rustlex import line_of
             s, e, l0, l1 = cs, ce, line_of(sf.src, cs), line_of(sf.src, ce)
             cut.name = mclo.group(2)
+        elif marm:
+            it = sf.find(marm.group(4))
+            raw, cs, ce = sf.arm_as_fn(it, marm.group(1).strip(), marm.group(2), marm.group(3))
+            from .rustlex import line_of
+            s, e, l0, l1 = cs, ce, line_of(sf.src, cs), line_of(sf.src, ce)
+            cut.name = marm.group(2)
         else:
             it = sf.find(cut.selector)
             raw = sf.text(it)
